@@ -3,6 +3,7 @@ package rules
 import (
 	"go/token"
 	"go/types"
+	"strings"
 
 	"golang.org/x/tools/go/ssa"
 
@@ -113,20 +114,92 @@ func savedIPBelongsToLoadedCode(c *core.Ctx) {
 						}
 					}
 				}
-				covered := !direct
-				for _, e := range savedEdges {
-					okE := false
+				// ... or nothing has run on the VM yet (no active code): the ip is the one the host set
+				acI := fieldIdxByName(vmT, "activeCode")
+				type edge struct{ from, to *ssa.BasicBlock }
+				accepted := map[edge]bool{}
+				for _, pb := range present {
+					for _, pr := range pb.Preds {
+						accepted[edge{pr, pb}] = true
+					}
+				}
+				for _, b2 := range fn.Blocks {
+					if len(b2.Instrs) == 0 {
+						continue
+					}
+					iff, ok := b2.Instrs[len(b2.Instrs)-1].(*ssa.If)
+					if !ok {
+						continue
+					}
+					bo, ok := iff.Cond.(*ssa.BinOp)
+					if !ok || (bo.Op != token.EQL && bo.Op != token.NEQ) {
+						continue
+					}
+					var other ssa.Value
+					if isNilValue(bo.Y) {
+						other = bo.X
+					} else if isNilValue(bo.X) {
+						other = bo.Y
+					}
+					if other == nil || acI < 0 {
+						continue
+					}
+					if _, ok := loadOfField(other, vmT, acI); !ok {
+						continue
+					}
+					if bo.Op == token.EQL {
+						accepted[edge{b2, b2.Succs[0]}] = true
+					} else {
+						accepted[edge{b2, b2.Succs[1]}] = true
+					}
+				}
+				var justified func(b *ssa.BasicBlock, depth int) bool
+				justified = func(b *ssa.BasicBlock, depth int) bool {
 					for _, pb := range present {
-						if pb == e || pb.Dominates(e) {
-							okE = true
+						if pb == b || pb.Dominates(b) {
+							return true
 						}
 					}
-					if !okE {
+					if depth > 3 || len(b.Preds) == 0 {
+						return false
+					}
+					for _, pr := range b.Preds {
+						if accepted[edge{pr, b}] {
+							continue
+						}
+						if !justified(pr, depth+1) {
+							return false
+						}
+					}
+					return true
+				}
+				covered := !direct
+				for _, e := range savedEdges {
+					if !justified(e, 0) {
 						covered = false
 					}
 				}
+				// the converse: an ip the host set before anything ran (WithInstructionOffset, SetIP) is honoured
+				hostIP := direct
+				for _, e := range savedEdges {
+					for _, pr := range e.Preds {
+						if accepted[edge{pr, e}] {
+							if iff, ok := pr.Instrs[len(pr.Instrs)-1].(*ssa.If); ok {
+								if bo, ok := iff.Cond.(*ssa.BinOp); ok {
+									for _, side := range []ssa.Value{bo.X, bo.Y} {
+										if _, ok := loadOfField(side, vmT, acI); ok {
+											hostIP = true
+										}
+									}
+								}
+							}
+						}
+					}
+				}
+				c.Check(hostIP, core.SSAName(fn)+"|host-set-ip-honoured-before-the-first-run", p.Pos(call.Pos()),
+					fn.Name()+" starts at the ip the host set (WithInstructionOffset, SetIP) when nothing has run on the VM yet"+ifs(!hostIP, ": the saved ip is used only for loaded code, so an offset given to a new VM is ignored"))
 				c.Check(covered, core.SSAName(fn)+"|saved-ip-only-for-loaded-code", p.Pos(call.Pos()),
-					fn.Name()+" resumes at the saved instruction pointer only on the branch where the code to run is still loaded"+ifs(!covered, ": the saved ip is also used when other code ran last (it is then an offset into that other code)"))
+					fn.Name()+" resumes at the saved instruction pointer only where the code to run is still loaded, or nothing has run yet"+ifs(!covered, ": the saved ip is also used when other code ran last (it is then an offset into that other code)"))
 			}
 		}
 	}
@@ -293,4 +366,290 @@ func spStaysInRange(c *core.Ctx) {
 		}
 	}
 	c.Stat("sp_increments", n)
+}
+
+// ---------------------------------------------------------------------------
+// initErrorReachesTheCaller: Config.init() reports an invalid configuration (an
+// override that cannot be converted).  The entry points of the root package that
+// build a Config and run code test that error before they run anything: a
+// dropped error means the script runs with the globals the host asked to replace.
+func initErrorReachesTheCaller(c *core.Ctx) {
+	p := c.P
+	root := p.Pkg("")
+	cfgT := core.MustType(root, "Config")
+	initM := core.Method(cfgT, "init")
+	newCfg := core.LookupFunc(root, "NewConfig")
+	if initM == nil || newCfg == nil {
+		core.Undecidedf("Config.init / NewConfig not found")
+	}
+	initF, newF := p.SSAFunc(initM), p.SSAFunc(newCfg)
+	n := 0
+	for _, fn := range repoFns(p, "") {
+		if fn.Parent() != nil || fn.Signature.Recv() != nil {
+			continue
+		}
+		var runs []ssa.Instruction
+		builds := false
+		for _, b := range fn.Blocks {
+			for _, in := range b.Instrs {
+				ci, ok := in.(ssa.CallInstruction)
+				if !ok {
+					continue
+				}
+				cal := ci.Common().StaticCallee()
+				if cal == nil {
+					continue
+				}
+				if cal == newF {
+					builds = true
+				}
+				if cal.Pkg != nil && core.RelPkg(cal.Pkg.Pkg) == "vm" && (strings.HasPrefix(cal.Name(), "Run") || cal.Name() == "Call") {
+					runs = append(runs, in)
+				}
+			}
+		}
+		if !builds || len(runs) == 0 {
+			continue
+		}
+		n++
+		// a call of init whose result is compared with nil and whose success branch dominates every run
+		okAll := true
+		for _, r := range runs {
+			okr := false
+			for _, b := range fn.Blocks {
+				for _, in := range b.Instrs {
+					call, ok := in.(*ssa.Call)
+					if !ok || call.Call.StaticCallee() != initF || call.Referrers() == nil {
+						continue
+					}
+					if core.NilCheckedErrDominates(call, r.Block()) {
+						okr = true
+					}
+				}
+			}
+			if !okr {
+				okAll = false
+			}
+		}
+		c.Check(okAll, core.SSAName(fn)+"|init-error-tested-before-running", p.Pos(fn.Pos()),
+			fn.Name()+" tests the error of Config.init() before it runs code"+ifs(!okAll, ": an invalid override is dropped silently and the script gets the object the host asked to replace"))
+	}
+	c.Stat("config_building_entry_points", n)
+}
+
+// ---------------------------------------------------------------------------
+// pathDescentAdvances: a loop that resolves a dotted path one element at a time
+// looks each element up on what the previous step found, not on the
+// loop-invariant root: otherwise every name deeper than two levels is looked up
+// in the wrong module and a deny-list entry or override for it is ignored.
+func pathDescentAdvances(c *core.Ctx) {
+	p := c.P
+	modT := core.MustType(p.Pkg("object"), "Module")
+	n := 0
+	for _, fn := range repoFns(p, "") {
+		for _, b := range fn.Blocks {
+			for _, in := range b.Instrs {
+				call, ok := in.(*ssa.Call)
+				if !ok {
+					continue
+				}
+				cal := call.Call.StaticCallee()
+				if cal == nil || cal.Name() != "GetAttr" || cal.Signature.Recv() == nil || core.NamedOf(cal.Signature.Recv().Type()) != modT {
+					continue
+				}
+				// inside a loop over a []string, with the element as the looked-up name
+				if !inLoop(b) || len(call.Call.Args) < 2 {
+					continue
+				}
+				elem := core.DependsOn(call.Call.Args[1], func(w ssa.Value) bool {
+					if u, ok := w.(*ssa.UnOp); ok {
+						_, isIdx := u.X.(*ssa.IndexAddr)
+						return isIdx
+					}
+					_, isNext := w.(*ssa.Next)
+					return isNext
+				})
+				if !elem {
+					continue
+				}
+				n++
+				_, invariant := call.Call.Args[0].(*ssa.Parameter)
+				c.Check(!invariant, core.SSAName(fn)+"|path-descent-advances", p.Pos(call.Pos()),
+					fn.Name()+" looks each path element up on the module found by the previous step"+ifs(invariant, ": every element is looked up on the root module, so names nested more than two levels deep resolve wrongly (a deny-list entry or override for them is ignored)"))
+			}
+		}
+	}
+	c.Stat("path_descents", n)
+}
+
+// ---------------------------------------------------------------------------
+// reflectedValuesNotAssertedBlindly: what comes out of reflect.Value.Interface()
+// has the dynamic type of the host's value.  A single-value type assertion on it
+// (x.(string)) panics for every named type of the same kind (type PK string);
+// the conversion code of package object runs before the VM's recover boundary
+// when globals are converted, so that panic reaches the caller of Eval.
+func reflectedValuesNotAssertedBlindly(c *core.Ctx) {
+	p := c.P
+	n, sites := 0, 0
+	for _, fn := range repoFns(p, "object") {
+		for _, b := range fn.Blocks {
+			for _, in := range b.Instrs {
+				ta, ok := in.(*ssa.TypeAssert)
+				if !ok {
+					continue
+				}
+				fromReflect := false
+				for _, o := range core.Origins(ta.X) {
+					if call, ok := o.(*ssa.Call); ok {
+						if cal := call.Call.StaticCallee(); cal != nil && cal.Pkg != nil && cal.Pkg.Pkg.Path() == "reflect" && cal.Name() == "Interface" {
+							fromReflect = true
+						}
+					}
+				}
+				if !fromReflect {
+					continue
+				}
+				sites++
+				if ta.CommaOk {
+					continue
+				}
+				if _, isIface := ta.AssertedType.Underlying().(*types.Interface); isIface {
+					continue
+				}
+				n++
+				c.Check(false, core.SSAName(fn)+"|reflected-value-asserted-blindly|"+ta.AssertedType.String(), p.Pos(ta.Pos()),
+					fn.Name()+" asserts the result of reflect.Value.Interface() to "+ta.AssertedType.String()+" without the comma-ok form: a host value of a named type of that kind panics here, outside the VM's recover boundary when globals are converted")
+			}
+		}
+	}
+	c.Pass("object|reflected-values", "", sprintf("%d type assertions on reflect.Value.Interface() results in package object, %d of them single-valued on a concrete type", sites, n))
+	c.Stat("reflect_interface_assertions", sites)
+}
+
+// ---------------------------------------------------------------------------
+// typeOfGuardedAgainstNil: reflect.TypeOf(nil) is nil, and every method of a nil
+// reflect.Type panics.  Where package object asks for the type of a value it
+// was handed as an interface, the nil interface is handled first.
+func typeOfGuardedAgainstNil(c *core.Ctx) {
+	p := c.P
+	n := 0
+	for _, fn := range repoFns(p, "object") {
+		for _, b := range fn.Blocks {
+			for _, in := range b.Instrs {
+				call, ok := in.(*ssa.Call)
+				if !ok {
+					continue
+				}
+				cal := call.Call.StaticCallee()
+				if cal == nil || cal.Pkg == nil || cal.Pkg.Pkg.Path() != "reflect" || cal.Name() != "TypeOf" || len(call.Call.Args) != 1 {
+					continue
+				}
+				// the conversion code (what runs when globals, fields and arguments cross the boundary)
+				if !strings.HasSuffix(p.Fset.Position(call.Pos()).Filename, "typeconv.go") {
+					continue
+				}
+				arg := call.Call.Args[0]
+				// a value converted from a concrete type here is never the nil interface
+				if mi, ok := arg.(*ssa.MakeInterface); ok {
+					if _, isIface := mi.X.Type().Underlying().(*types.Interface); !isIface {
+						continue
+					}
+				}
+				// only when the type is used for more than a comparison: passed on or a method is called on it
+				used := false
+				if refs := call.Referrers(); refs != nil {
+					for _, r := range *refs {
+						switch x := r.(type) {
+						case *ssa.BinOp, *ssa.DebugRef:
+						case *ssa.MakeInterface, *ssa.ChangeInterface:
+							// handed to a formatting function: a nil Type prints, it is not dereferenced
+						case ssa.CallInstruction:
+							if x.Common().IsInvoke() && x.Common().Value == ssa.Value(call) {
+								used = true // a method of the Type
+							} else if callee := x.Common().StaticCallee(); callee != nil && core.RepoFunc(callee) {
+								used = true
+							}
+						default:
+							used = true
+						}
+					}
+				}
+				if !used {
+					continue
+				}
+				n++
+				guarded := false
+				root := arg
+				if ct, ok := root.(*ssa.ChangeInterface); ok {
+					root = ct.X
+				}
+				for _, b2 := range fn.Blocks {
+					if len(b2.Instrs) == 0 || (b2 != b && !b2.Dominates(b)) {
+						continue
+					}
+					iff, ok := b2.Instrs[len(b2.Instrs)-1].(*ssa.If)
+					if !ok {
+						continue
+					}
+					if bo, ok := iff.Cond.(*ssa.BinOp); ok && (bo.Op == token.EQL || bo.Op == token.NEQ) {
+						if (bo.X == root && isNilValue(bo.Y)) || (bo.Y == root && isNilValue(bo.X)) {
+							guarded = true
+						}
+					}
+				}
+				// the type's nil-ness is tested before use instead
+				if refs := call.Referrers(); refs != nil && !guarded {
+					for _, r := range *refs {
+						if bo, ok := r.(*ssa.BinOp); ok && (isNilValue(bo.X) || isNilValue(bo.Y)) {
+							guarded = true
+						}
+					}
+				}
+				// or the callee it is handed to tests it
+				if !guarded {
+					if refs := call.Referrers(); refs != nil {
+						all := true
+						any := false
+						for _, r := range *refs {
+							ci, ok := r.(ssa.CallInstruction)
+							if !ok {
+								if _, dbg := r.(*ssa.DebugRef); !dbg {
+									all = false
+								}
+								continue
+							}
+							any = true
+							callee := ci.Common().StaticCallee()
+							if callee == nil || callee.Blocks == nil || !nilTestsParam(callee, ci.Common().Args, call) {
+								all = false
+							}
+						}
+						guarded = all && any
+					}
+				}
+				c.Check(guarded, core.SSAName(fn)+"|typeof-guarded-against-nil", p.Pos(call.Pos()),
+					fn.Name()+" handles the nil interface before it uses reflect.TypeOf of a value it was handed"+ifs(!guarded, ": for an untyped nil the type is nil and the first method call on it panics (outside the VM's recover boundary when globals are converted)"))
+			}
+		}
+	}
+	c.Stat("typeof_sites", n)
+}
+
+// nilTestsParam: the callee compares the parameter that receives v with nil
+// in its entry block.
+func nilTestsParam(callee *ssa.Function, args []ssa.Value, v ssa.Value) bool {
+	for i, a := range args {
+		if a != v || i >= len(callee.Params) {
+			continue
+		}
+		prm := callee.Params[i]
+		if refs := prm.Referrers(); refs != nil {
+			for _, r := range *refs {
+				if bo, ok := r.(*ssa.BinOp); ok && (bo.Op == token.EQL || bo.Op == token.NEQ) && (isNilValue(bo.X) || isNilValue(bo.Y)) && bo.Block() == callee.Blocks[0] {
+					return true
+				}
+			}
+		}
+	}
+	return false
 }
